@@ -25,7 +25,7 @@ func within(got int64, exact *big.Rat, tolNs int64) bool {
 }
 
 func checkLinear(lc linCase) (string, string, uint64) {
-	r := lm.Build(lc.List, nil, nil)
+	r := lm.Build(lc.List, []string{"a"}, []string{"r"})
 	ptrs := append([]interface{}{}, nil)
 	_ = ptrs
 	r.Subs.ApplyLinearCorrection(time.Duration(lc.A1), time.Duration(lc.D1), time.Duration(lc.A2), time.Duration(lc.D2))
@@ -125,7 +125,7 @@ func c15Run(c *core.Ctx) {
 			if !c.Mine() {
 				continue
 			}
-			lc := linCase{List: l, A1: q[0], D1: q[1], A2: q[2], D2: q[3]}
+			lc := linCase{List: decorate(l), A1: q[0], D1: q[1], A2: q[2], D2: q[3]}
 			key, msg, out := checkLinear(lc)
 			c.Transitions++
 			c.Traces++
